@@ -14,7 +14,7 @@ from .. import scen as S
 from .. import ianasuite
 from .. import refrecord
 from ..core import pmap
-from tlslite.constants import CipherSuite
+from tlslite.constants import CipherSuite, AlertDescription
 CS = CipherSuite
 HRR_RANDOM = bytes.fromhex(
     "cf21ad74e59a6111be1d8c021e65b891c2a211167abb8c5e079e09e2c8a8339c")
@@ -624,11 +624,24 @@ def mitm_case(item):
         recs = W.split_records(w.c2s.log)
         went_on = any(t == 23 for t, _, _ in recs)
     rec["selected"] = "went_on" if went_on else "refused"
+    o = out["C"]
+    rec["c_out"] = (o.status,) + (tuple(W.exc_sig(o.exc)[:3])
+                                  if o.status == "exc" else ())
     if went_on and not defined and state["done"]:
         rec["fails"].append("client continued the handshake with %s in %s "
                             "which does not define it" % (
                                 CipherSuite.ietfNames.get(sid, sid),
                                 S.VNAME[v]))
+    if state["done"] and not defined and not rec["fails"] and not (
+            rec["c_out"][:2] == ("exc", "TLSLocalAlert") and
+            rec["c_out"][2] in (AlertDescription.illegal_parameter,
+                                AlertDescription.handshake_failure)):
+        # going on until something else breaks (keys that do not fit, a
+        # Finished that does not verify) is not a refusal of the suite
+        rec["fails"].append("client did not refuse the ServerHello naming %s "
+                            "in %s, which does not define it: %r" % (
+                                CipherSuite.ietfNames.get(sid, sid),
+                                S.VNAME[v], rec["c_out"]))
     return rec
 
 
